@@ -5,9 +5,9 @@ import time
 from vf import Inconclusive, parallel, require_clean, validate_traces, vfj_lines, b2s
 
 CLAIM = {
-    "text": "ExprScalar.tla transcribes the documented semantics of 60 scalar expression helpers (integer/float arithmetic, floor/ceil/round, comparison and logic, string helpers, bucket/bucketrange/clamp/expbucket, csv with an RFC 4180 decoder (Csv.tla), hi/hf/percent/bytesize/bytesizesi/downscale, lookup/haskey, path helpers, format) with explicit domains; TLC proves the property's laws on that model over ranges (bucket is the multiple b of s with b<=v<b+s, clamp returns v iff min<=v<=max, Decode(csv(args))=args for every CSV special character, hi only inserts separators at every third digit, truncating divi/modi, order laws of lt..gte, rounding within half a unit, ...); TLC enumerates exhaustive small argument ranges per helper and arity with the expected result, the real compiler evaluates each call with every argument both as a template constant and as a match group (optimised and unoptimised), on a fresh compiled expression and again as evaluation histories (one compiled expression evaluated over sequences of contexts that differ in one dynamic argument at a time, with revisits and error values, and from 2-4 goroutines), so a compiled expression is checked to be a function of its current context; every distinct recorded observation, plus seeded random histories with values up to +-10^9, is validated by TLC against the specification.",
-    "note": "Bounded: TLC integers are 32 bit, so values beyond 9 digits, int64/float64 boundaries, binary rounding ties, exponent/hex/inf/nan spellings, non-ASCII case mapping and log10/log2/ln are outside the specified domain (only 'returns'). Whitespace-only arguments of and/or/not are outside the domain (the docs contradict themselves). Trusted: TLC, the Go runtime, the template encoding of constants (checked with a transparent function).",
-    "technique": "TLA+ functional specification model-checked with TLC (laws over ranges) + model-generated vectors replayed on the real code + TLC validation of recorded evaluations",
+    "text": "ExprScalar.tla transcribes the documented semantics of 60 scalar expression helpers (integer/float arithmetic, floor/ceil/round, comparison and logic, string helpers, bucket/bucketrange/clamp/expbucket, csv with an RFC 4180 decoder (Csv.tla), hi/hf/percent/bytesize/bytesizesi/downscale, lookup/haskey, path helpers, format) with explicit domains; TLC proves the property's laws on that model over ranges (bucket is the multiple b of s with b<=v<b+s, clamp returns v iff min<=v<=max, Decode(csv(args))=args for every CSV special character, hi only inserts separators at every third digit, truncating divi/modi, order laws of lt..gte, rounding within half a unit, ...); TLC enumerates exhaustive small argument ranges per helper and arity with the expected result, the real compiler evaluates each call with every argument both as a template constant and as a match group (optimised and unoptimised), on a fresh compiled expression and again as evaluation histories (one compiled expression evaluated over sequences of contexts that differ in one dynamic argument at a time, with revisits and error values, and from 2-4 goroutines), so a compiled expression is checked to be a function of its current context. ExprScalarHist.tla models the compiled call as an object with a life - instances (their template constants), contexts, evaluations that Begin, Read their dynamic arguments one context read at a time and Finish, interleaved serially, nested with stack discipline (re-entrant use on one goroutine, as a funcs-file function used inside its own argument) or freely (worker goroutines) - with the law Isolated: every finished evaluation holds Expect(f, its own arguments); TLC proves it for the designs 'nothing carried between evaluations' and 'memo keyed on all dynamic arguments' under every schedule and refutes the negative controls (memo keyed on the first dynamic argument, memo shared by instances with different constants, sticky error: by serial histories; argument slots owned by the instance: passes every serial history, refuted by two overlapping or nested evaluations). TLC enumerates the behaviours of that machine as evaluation shapes (which instance on which context, order of advance from context read to context read); the driver realises every shape on pools of 2 compiled instances x 3 contexts drawn from the TLC vectors of every helper, arity and position pattern - serially, with every evaluation in a goroutine whose context reads wait for their grant (deterministic interleavings), and nested on one goroutine from inside a pending context read - and compares each evaluation with TLC's expectation for its own arguments; every distinct recorded observation (incl. seeded random shapes), plus seeded random histories with values up to +-10^9, is validated by TLC against the specification.",
+    "note": "Bounded: TLC integers are 32 bit, so values beyond 9 digits, int64/float64 boundaries, binary rounding ties, exponent/hex/inf/nan spellings, non-ASCII case mapping and log10/log2/ln are outside the specified domain (only 'returns'). Whitespace-only arguments of and/or/not are outside the domain (the docs contradict themselves). Evaluations can be suspended only at their context reads (state that is shared between the last read and the return is visible only to the free-running goroutine runs, which are timing dependent); a helper that holds a lock across its argument reads would stall the gated realisation (reported as inconclusive, not as a violation); shapes have at most 3 evaluations, 2 instances, 3 contexts. Trusted: TLC, the Go runtime, the template encoding of constants (checked with a transparent function).",
+    "technique": "TLA+ functional specification model-checked with TLC (laws over ranges) + TLA+ state machine of evaluation histories / interleavings with negative controls + model-generated vectors and behaviours (shapes) replayed on the real code with gated contexts + TLC validation of recorded evaluations",
 }
 
 
@@ -18,6 +18,16 @@ def _cfg(inv, thorough):
 
 def _text(a):
     return b2s(a)
+
+
+def _hist_cfg(design, sched, maxev, pool):
+    return ("SPECIFICATION Spec\nCONSTANTS Scenarios <- MCScenarios\n MaxEvals = %d\n Design = \"%s\"\n Sched = \"%s\"\n"
+            " Pool = \"%s\"\nINVARIANTS TypeOK Isolated\nCHECK_DEADLOCK FALSE\n" % (maxev, design, sched, pool))
+
+
+def _shape_cfg(sched, maxev, ks):
+    return ("SPECIFICATION GSpec\nCONSTANTS Scenarios <- AbsScen1\n MaxEvals = %d\n Design = \"fresh\"\n Sched = \"%s\"\n"
+            " Ks = {%s}\n NI = 2\n NC = 3\nINVARIANTS Dump\nCHECK_DEADLOCK FALSE\n" % (maxev, sched, ks))
 
 
 def check(run):
@@ -53,7 +63,7 @@ def _check(run):
     # ---- B3: the property's laws on the model, over ranges
     def b3():
         try:
-            r = run.tlc("ExprScalar_MC", _cfg("LawOK", not quick), workers=4, timeout=3000,
+            r = run.tlc("ExprScalar_MC", _cfg("LawOK", not quick), workers=2 if quick else 3, timeout=3000,
                         label="ExprScalar_MC laws Thorough=%s" % (not quick))
         finally:
             b3_done.set()
@@ -62,11 +72,65 @@ def _check(run):
             raise Inconclusive("law check explored only %d cases" % r.distinct)
         return r
 
+    # ---- history layer (ExprScalarHist): shapes for B1, then the law and the negative controls (B3)
+    shapes_path = os.path.join(run.scratch, "c11-shapes.ndjson")
+    shapes_ready = threading.Event()
+    shapes_info = {}
+
+    def hist():
+        try:
+            # serial histories of up to 3 evaluations are the non-overlapping behaviours of the nested run
+            plan = [("any", 2, "1,2,3"), ("nested", 3, "1,2")]
+            if not quick:
+                plan += [("serial", 4, "1"), ("nested", 3, "3"), ("any", 3, "1")]
+            def gen(sched, maxev, k):
+                r = run.tlc("ExprScalarHist_Gen", _shape_cfg(sched, maxev, k), workers=1, timeout=1500,
+                            label="ExprScalarHist_Gen shapes Sched=%s MaxEvals=%d K in {%s}" % (sched, maxev, k))
+                if r.violated or r.errors or not r.finished:
+                    raise Inconclusive("shape generator failed: %s" % r.out[-2000:])
+                return vfj_lines(r.out)
+            n = 0
+            with open(shapes_path, "w") as f:
+                for vs in parallel([lambda a=a: gen(*a) for a in plan], 2):
+                    for v in vs:
+                        f.write(json.dumps(v, separators=(",", ":")) + "\n")
+                        n += 1
+            if n < 3000:
+                raise Inconclusive("shape generator produced only %d shapes" % n)
+            shapes_info["n"] = n
+        finally:
+            shapes_ready.set()
+        pool = "quick" if quick else "thorough"
+        big = 3 if quick else 4
+
+        # admissible designs: Isolated under every schedule (shared_slots only when evaluations never overlap)
+        def passes(design, sched, maxev):
+            r = run.tlc("ExprScalarHist_MC", _hist_cfg(design, sched, maxev, pool), workers=1 if quick else 2, timeout=3000,
+                        label="ExprScalarHist %s / %s, MaxEvals=%d" % (design, sched, maxev))
+            require_clean(run, r, "ExprScalarHist %s/%s" % (design, sched))
+            if r.distinct < 1000:
+                raise Inconclusive("ExprScalarHist %s/%s explored only %d states" % (design, sched, r.distinct))
+
+        # negative controls: each must be refuted, with the least schedule that can show it
+        def refuted(design, sched, maxev):
+            r = run.tlc("ExprScalarHist_MC", _hist_cfg(design, sched, maxev, pool), workers=1, timeout=3000,
+                        label="ExprScalarHist %s / %s (negative control: Isolated must be refuted)" % (design, sched))
+            if list(r.violated) != ["Isolated"]:
+                raise Inconclusive("negative control %s/%s was not refuted as expected (violated=%s)\n%s" % (
+                    design, sched, r.violated, r.out[-2000:]))
+
+        jobs = [lambda a=a: passes(*a) for a in [("fresh", "any", 3), ("memo_all", "any", 3), ("shared_slots", "serial", big)]
+                + ([] if quick else [("fresh", "nested", 4), ("fresh", "serial", 4)])]
+        jobs += [lambda a=a: refuted(*a) for a in [("memo_first", "serial", 2), ("global_memo", "serial", 2), ("sticky_error", "serial", 2),
+                                                   ("shared_slots", "any", 2), ("shared_slots", "nested", 2)]]
+        parallel(jobs, 2)
+        return shapes_info
+
     # ---- B1: TLC enumerates calls with expectations; the real compiler evaluates them
     # ---- B2: TLC validates every recorded evaluation (B1 replays + seeded random calls)
     def b12():
         time.sleep(0.5)
-        r = run.tlc("ExprScalar_Gen", _cfg("Dump", not quick), workers=4, timeout=3000,
+        r = run.tlc("ExprScalar_Gen", _cfg("Dump", not quick), workers=2, timeout=3000,
                     label="ExprScalar_Gen Thorough=%s" % (not quick))
         if r.violated or r.errors or not r.finished:
             raise Inconclusive("generator failed: %s" % r.out[-2000:])
@@ -77,7 +141,11 @@ def _check(run):
                 n += 1
         if n < 15000:
             raise Inconclusive("generator produced only %d vectors" % n)
-        run.drv(["replay", "-in", vec_path, "-out", res_path, "-trace", b1_trace])
+        shapes_ready.wait()
+        if "n" not in shapes_info:
+            raise Inconclusive("no evaluation shapes")
+        run.drv(["replay", "-in", vec_path, "-out", res_path, "-trace", b1_trace, "-shapes", shapes_path,
+                 "-pools", 2 if quick else 5, "-nest3", 150 if quick else 500])
         run.drv(["trace", "-out", b2_trace, "-n", 30000 if quick else 1000000, "-stats", b2_stats])
         b2_lines = open(b2_trace).read().splitlines()
         lines = open(b1_trace).read().splitlines() + b2_lines
@@ -108,7 +176,7 @@ def _check(run):
 
         return chunks, parallel([lambda i=i, p=p: val(i, p) for i, p, _ in chunks], k)
 
-    _, (chunks, results) = parallel([b3, b12], 2)
+    _, (chunks, results), _ = parallel([b3, b12, hist], 3)
     res = json.load(open(res_path))
     run.cov["b1_vectors"] = res["vectors"]
     run.cov["b1_evaluations"] = res["runs"]
@@ -116,6 +184,12 @@ def _check(run):
     run.cov["b1_history_expressions"] = res["history_expressions"]
     run.cov["b1_history_steps"] = res["history_steps"]
     run.cov["b1_goroutine_observations"] = res["goroutine_observations"]
+    run.cov["b1_shapes"] = ("%d evaluation shapes from TLC (ExprScalarHist_Gen) realised on %d pools of calls (2 compiled instances x 3 contexts): "
+                            "%d serial, %d gated (goroutines, context reads wait for their grant), %d nested (re-entrant on one goroutine) runs, %d evaluations" % (
+                                res["shapes"], res["shape_pools"], res["shape_serial_runs"], res["shape_gated_runs"],
+                                res["shape_nested_runs"], res["shape_evaluations"]))
+    if res["shape_pools"] < 300 or res["shape_gated_runs"] < 50000 or res["shape_nested_runs"] < 10000:
+        raise Inconclusive("evaluation shapes were realised on too few calls: %s" % run.cov["b1_shapes"])
     run.cov["b1_records_for_tlc"] = "%d distinct observations (%d further evaluations gave an identical record)" % (
         res["records_written"], res["records_identical"])
     run.cov["traces_validated_against_impl"] += res["runs"]
@@ -127,7 +201,10 @@ def _check(run):
         run.violation("%s:%s" % (m["f"], m["class"]),
                       "template %s%s with context %s (optimise=%s) evaluates to %r%s%s; the specification expects %s %r" % (
                           m["template"],
-                          (" (one compiled expression, history %s step %s, previous context %s)" % (m["hist"], m.get("step"), m.get("prev"))
+                          (" (evaluation %s of shape %s realised %s: evaluations [instance, context] %s with contexts %s advance in the order %s; "
+                           "the compiled instances had been evaluated before)" % (
+                               m["eval"], m["shape"], m["mode"], m["evs"], m["ctxs"], m["grants"]) if "shape" in m else
+                           " (one compiled expression, history %s step %s, previous context %s)" % (m["hist"], m.get("step"), m.get("prev"))
                            if "hist" in m and "goroutines" not in m else
                            " (one compiled expression evaluated from %s goroutines)" % m["goroutines"] if "goroutines" in m else ""),
                           m["args"], m["opt"], m["got"],
@@ -135,9 +212,10 @@ def _check(run):
                           m["expect"]["k"], m["expect_text"] or [_text(a) for a in m["expect"]["alts"] or []]), m)
 
     st = json.load(open(b2_stats))
-    nb2 = st["evaluations"] + st["goroutine_observations"]
+    nb2 = st["evaluations"] + st["goroutine_observations"] + st["shape_evaluations"]
     run.cov["b2_history_expressions"] = st["expressions"]
     run.cov["b2_goroutine_expressions"] = st["goroutine_expressions"]
+    run.cov["b2_random_shapes"] = "%d runs, %d evaluations" % (st["shape_runs"], st["shape_evaluations"])
     run.cov["b2_records_for_tlc"] = "%d distinct observations (%d further evaluations gave an identical record)" % (
         st["records_written"], st["records_identical"])
     consumed = nontrivial = canary = canary_rejected = 0
@@ -156,7 +234,8 @@ def _check(run):
             run.violation("%s:%s" % (bad["f"], bad["class"]),
                           "recorded evaluation {%s %s}%s (positions %s, optimise=%s) = %s%s%s is rejected by ExprScalar.tla (%s)" % (
                               rec["f"], " ".join(repr(a) for a in args),
-                              (" [%s goroutines on one compiled expression]" % rec["goroutines"] if "goroutines" in rec else
+                              (" [evaluation %s of a shape of overlapping / nested evaluations of one compiled expression]" % rec.get("eval") if "shape" in rec else
+                               " [%s goroutines on one compiled expression]" % rec["goroutines"] if "goroutines" in rec else
                                " [step %s of history %s on one compiled expression]" % (rec.get("step"), rec["hist"]) if "hist" in rec else ""),
                               "".join(rec["pos"]), rec.get("opt"),
                               _text(rec["got"]), " (compile error)" if rec["cerr"] else "",
